@@ -675,7 +675,7 @@ func walkTree(pre string, guard Term, tree *GoalTree, cfg *SolverCfg, id string)
 	if per < 3000 {
 		per = 3000
 	}
-	deadline := t0.Add(time.Duration(cfg.TimeoutMs*10) * time.Millisecond)
+	deadline := t0.Add(time.Duration(cfg.TimeoutMs*20) * time.Millisecond)
 	ctx, cancel := context.WithDeadline(context.Background(), deadline.Add(5*time.Second))
 	defer cancel()
 	c := exec.CommandContext(ctx, "z3-new", "-in", fmt.Sprintf("smt.random_seed=%d", cfg.Seed))
